@@ -2,7 +2,7 @@
     integer polygon, with what the implementation returned (pixel centres mapped back to
     integers by the harness, levels ascending).  Each property compares its own projection. *)
 From Coq Require Import ZArith List Bool.
-From Texel Require Import Prelude.Base Prelude.Corr Index.Model Snap.Model.
+From Texel Require Import Prelude.Base Prelude.Corr Index.Model Snap.Model Snap.ModelFull.
 Import ListNotations.
 Open Scope Z_scope.
 
@@ -16,8 +16,10 @@ Inductive observed :=
 Record snapcase := SnapCase {
   sc_grid : grid; sc_poly : list ring; sc_levels : list nat; sc_cfg : config; sc_obs : observed }.
 
+(* the model including the Morton-key limit (F11); equal to [snapPolygon] for deepest levels <= 32
+   (Snap/ProofsFull.v: snapPolygonFull_eq) *)
 Definition run (c : snapcase) : res (list (nat * list polygon)) :=
-  snapPolygon (sc_grid c) (sc_poly c) (sc_levels c) (sc_cfg c).
+  snapPolygonFull (sc_grid c) (sc_poly c) (sc_levels c) (sc_cfg c).
 
 Definition level_eqb (a b : nat * list polygon) : bool := Nat.eqb (fst a) (fst b) && polys_eqb (snd a) (snd b).
 
